@@ -42,6 +42,8 @@ let instance idx =
   Printf.printf "CHECK %d\n" (if check_schedule i then 1 else 0);
   Printf.printf "CHECKSYM %d\n" (if check_sym i sizes (nat_of_int p0) (nat_of_int n) then 1 else 0);
   Printf.printf "CHECKREPLAY %d\n" (if check_replay i sizes (nat_of_int p0) (nat_of_int n) then 1 else 0);
+  Printf.printf "EXTRAOK %d\n" (if extra_ok i then 1 else 0);
+  Printf.printf "SCHEDOK %d\n" (if sched_ok i (nat_of_int p0) (nat_of_int n) then 1 else 0);
   let small = List.map (fun z -> z_of_int (max 1 (int_of_z z - 1))) sizes in
   Printf.printf "CHECKSYM_SMALLER %d\n" (if check_sym i small (nat_of_int p0) (nat_of_int n) then 1 else 0);
   for c = 0 to nc - 1 do Printf.printf "NEED %d %d\n" c (int_of_z (buffer_need i (nat_of_int c))) done;
